@@ -42,6 +42,8 @@ pub struct Hist {
     pub stats: BTreeMap<String, u64>,
     pub next_tag: u64,
     pub with_freezer: bool,
+    /// candidate gaps (ms) between a block and its parent
+    pub ts_choices: Vec<u64>,
 }
 
 pub struct Change {
@@ -59,7 +61,7 @@ impl Hist {
             cfg, consensus, funds: funds.clone(), dir, node: Some(node),
             blocks: vec![], block_id: HashMap::new(), txs: vec![], tx_id: HashMap::new(),
             pending: HashMap::new(), outs: vec![], used_uncles: HashSet::new(), stash: vec![],
-            jops: vec![], stats: BTreeMap::new(), next_tag: 1, with_freezer,
+            jops: vec![], stats: BTreeMap::new(), next_tag: 1, with_freezer, ts_choices: vec![1, 20, 900, 15_000, 700_000, 3_000_000],
         };
         let genesis = h.consensus.genesis_block().clone();
         h.block_id.insert(genesis.hash(), 0);
@@ -217,7 +219,7 @@ impl Hist {
             proposals,
             txs: commit.clone(),
             uncles: uncles.clone(),
-            ts_delta: *rng.pick(&[1u64, 20, 900, 15_000, 700_000, 3_000_000]),
+            ts_delta: *rng.pick(&self.ts_choices),
             nonce: self.blocks.len() as u128 + 1,
         };
         let b = build_block(builder, &plan);
